@@ -45,6 +45,7 @@ NOTES = {
  "C18b": "round 2; caught by C18 R1/R2 as first written (the visited test left the pop site; the work-stack push count changed)",
  "C20b": "round 2; caught by the order-taint rule as first written (hash iteration reaching allocate_object_id)",
  "C25b": "round 2; first missed; rule C25 R7 (u8 ranges that fill encoding tables end inclusively at 0xFF) added",
+ "C28b": "round 2; first missed; rule C28 R5 (/Count is computed from a recursive descendant count on both branches) added",
  "C22b": "round 2; first missed; rule C22 R6 (shared atomic counters are updated by one read-modify-write, never load-then-store) added",
  "C11b": "round 2; first missed; rule C11 R7 (fonts are installed under their resource name unconditionally) added",
 }
